@@ -604,11 +604,11 @@ def run(ctx):
     from .c08 import _take
     r9 = Rule("C17", "C17.R9", "instance-id clashes are refused in every sheet order", floor=10,
               necessary="a clash found only when the rows are adjacent lets the same instance id through for other orders")
-    _take(r9, c09.run(ctx), "C09.R3", lambda c: c.startswith("_validate_external_instances[") or c.startswith("_generate_instances[choice list vs file clash") or c.startswith("_generate_instances[two files with one stem"))
+    _take(r9, ctx.other(c09), "C09.R3", lambda c: c.startswith("_validate_external_instances[") or c.startswith("_generate_instances[choice list vs file clash") or c.startswith("_generate_instances[two files with one stem"))
     # an untidy `namespaces` cell never surfaces as an internal exception (get_nsmap evaluated on stray words, bare
     # prefixes, a lone `=`): shared with C19.R4
     from . import c19 as _c19h
-    _take(r9, _c19h.run(ctx), "C19.R4", lambda c: c.startswith("get_nsmap.base[") and ("draft" in c or "bare" in c or "esri = " in c))
+    _take(r9, ctx.other(_c19h), "C19.R4", lambda c: c.startswith("get_nsmap.base[") and ("draft" in c or "bare" in c or "esri = " in c))
     rules.append(r9)
     return rules
 
